@@ -167,8 +167,12 @@ Definition do_getexpiry (r : option row) : kres :=
   | None => kfail 0 EMissing r
   end.
 
-Definition virtual_document (r0 : row) : string :=
-  ("{""value_crc32c"":" ++ quote (crc_string (r_value r0)) ++ ",""revid"":" ++ quote (N_to_dec (r_rev r0)) ++ "}")%string.
+(* the virtual xattrs: $document = {"value_crc32c": crc of the body, "revid": revSeqNo as a string} *)
+Definition docx_string (body : option string) (rev : N) : string :=
+  ("{""value_crc32c"":" ++ quote (crc_string body) ++ ",""revid"":" ++ quote (N_to_dec rev) ++ "}")%string.
+Definition revx_string (rev : N) : string := quote (N_to_dec rev).
+
+Definition virtual_document (r0 : row) : string := docx_string (r_value r0) (r_rev r0).
 
 (* getRawWithXattrs: the requested names that exist (virtual ones always do), in request order,
    later duplicates overwriting earlier ones (a Go map) - returned sorted by name *)
@@ -176,7 +180,7 @@ Definition collect_xattrs (r0 : row) (names : list string) : list (string * stri
   let m := match xparse (r_xattrs r0) with Some l => l | None => [] end in
   fold_left (fun acc k =>
     if String.eqb k "$document" then obj_set k (virtual_document r0) acc
-    else if String.eqb k "$document.revid" then obj_set k (quote (N_to_dec (r_rev r0))) acc
+    else if String.eqb k "$document.revid" then obj_set k (revx_string (r_rev r0)) acc
     else match obj_get k m with Some v => obj_set k v acc | None => acc end) names [].
 
 Definition do_getwithxattrs (names : list string) (r : option row) : kres :=
